@@ -99,6 +99,14 @@ func (a Action) Key() string {
 
 func coin(v int64) sdk.Coin { return sdk.NewInt64Coin(Denom, v) }
 
+// spell writes a bech32 address in upper case (the same account) when upper is set.
+func spell(bech string, upper bool) string {
+	if upper {
+		return strings.ToUpper(bech)
+	}
+	return bech
+}
+
 func coinD(v int64, d string) sdk.Coin {
 	if d == "f" {
 		return sdk.NewInt64Coin(ForeignDenom, v)
@@ -240,14 +248,14 @@ func (w *World) Msg(a Action) (sdk.Msg, string, error) {
 		if err != nil {
 			return nil, "", err
 		}
-		return &ptypes.MsgCreateProvider{Owner: p.String(), HostURI: "https://" + a.P + ".example.com", Attributes: a.Attrs.Attributes()},
+		return &ptypes.MsgCreateProvider{Owner: spell(p.String(), a.Upper), HostURI: "https://" + a.P + ".example.com", Attributes: a.Attrs.Attributes()},
 			"/akash.provider.v1beta1.Msg/CreateProvider", nil
 	case "UpdateProvider":
 		p, err := w.Addr(a.P)
 		if err != nil {
 			return nil, "", err
 		}
-		return &ptypes.MsgUpdateProvider{Owner: p.String(), HostURI: "https://" + a.P + ".example.com", Attributes: a.Attrs.Attributes()},
+		return &ptypes.MsgUpdateProvider{Owner: spell(p.String(), a.Upper), HostURI: "https://" + a.P + ".example.com", Attributes: a.Attrs.Attributes()},
 			"/akash.provider.v1beta1.Msg/UpdateProvider", nil
 	case "SignAttributes":
 		p, err := w.Addr(a.P)
